@@ -50,9 +50,11 @@ class C16(Prop):
                   "run a replayed case denotes). Unconditionally: count = fetch_adds since the last reset, no push panics, len = min(count read, cap), "
                   "returned drains are logged, consumers exclude each other and use_primary selects the other side while a drain is between swap and reset. "
                   "The late-push pattern breaks per-drain accounting (C16_late_push_refutes).")
-    level_note = ("The concurrent theorem is stated on the machine's ghost ledgers (per side: values started at 1601 / fetch_added at 1602 since the "
-                  "side's last reset), not on the trace walker spec_ok uses: 'spec_ok holds on every model run outside the known class' for threaded "
-                  "cases is NOT proved (it needs a refinement between the walker's trace windows and the ghost ledgers); spec_ok is evaluated on every "
+    level_note = ("PARTIAL link between the executable threaded check and the model: C16_spec_clauses_on_model_partial proves, by a refinement between the "
+                  "trace walker (windows cut at the trace's 1606 steps) and the ghost ledgers along exec_full, that outside the known class every run of "
+                  "the model passes the no-anomaly clause and every drain clause of spec_ok (count = |window|, len, number read, rate, values of the window "
+                  "only, prefix in fetch_add order if count <= cap); the push-result clause (rank idx in the window => no draw if idx < cap, else bound "
+                  "idx+1) is NOT proved on the model; the whole of spec_ok is evaluated on every "
                   "replayed schedule instead (the implementation's own traces) and "
                   "held on all of them, failing only inside the open known class C16-late-push. Uniformity is conditional on rand's random_range "
                   "being uniform on the requested range AND on the thread-local generators being seeded independently per thread (both trusted by the "
